@@ -7,7 +7,7 @@
   reallocating operation (`grow`, `shrink`, `WithoutShrink::shrink`, `shrink_slice`,
   `allocate_prepared(_rev)`, `allocate_prepared_slice(_rev)`).
 
-  Hypotheses (definitions in `Lemmas/MemBasic.lean`, `MemWrite.lean`, `MemFresh.lean`):
+  Hypotheses (definitions in namespace `Arena.Mem`: `Lemmas/MemBasic.lean`, `MemWrite.lean`, `MemFresh.lean`):
   * `MemWF s`      : chunk address ranges pairwise disjoint, every chunk carries `size` bytes;
   * `HeadFresh s`  : the next base-allocator response (if a grant) overlaps no existing chunk;
   * `InChunks s a` : `a` is an address of some chunk of `s` (bytes outside every chunk are not
@@ -18,7 +18,7 @@
 import BumpProof.Lemmas.MemExLive
 
 namespace C02
-open Arena Rs
+open Arena Arena.Mem Rs
 
 /-! ## `writeRange`, `copyBytes`, `zeroRange` -/
 
@@ -38,7 +38,7 @@ theorem writeRange_outside {cfg : Cfg} {s s' : State} {lo hi : Nat} {f : Nat →
     frames, … are untouched -/
 theorem writeRange_only_data {cfg : Cfg} {s s' : State} {lo hi : Nat} {f : Nat → UInt8}
     (h : writeRange cfg s lo hi f = .ok s') :
-    s' = { s with chunks := s'.chunks } ∧ s'.chunks.map Chunk.geom = s.chunks.map Chunk.geom :=
+    s' = { s with chunks := s'.chunks } ∧ s'.chunks.map Chunk.memGeom = s.chunks.map Chunk.memGeom :=
   writeRange_onlyData h
 
 /-- a successful non-empty write stays inside the content range (not the header) of one chunk -/
@@ -62,7 +62,7 @@ theorem copyBytes_outside {cfg : Cfg} {s s' : State} {src dst len : Nat} {b : Bo
 
 theorem copyBytes_only_data {cfg : Cfg} {s s' : State} {src dst len : Nat} {b : Bool}
     (h : copyBytes cfg s src dst len b = .ok s') :
-    s' = { s with chunks := s'.chunks } ∧ s'.chunks.map Chunk.geom = s.chunks.map Chunk.geom :=
+    s' = { s with chunks := s'.chunks } ∧ s'.chunks.map Chunk.memGeom = s.chunks.map Chunk.memGeom :=
   copyBytes_onlyData h
 
 /-- `copy_nonoverlapping` with overlapping ranges is a fault (UB), never a silent success -/
@@ -247,7 +247,7 @@ theorem stepCore_scopeExit_never_writes {cfg : Cfg} {g g' : GState} {out : Out}
 /-! ## Non-vacuity: concrete states / inputs meeting the hypotheses (see `Lemmas/MemEx.lean`) -/
 
 section NonVacuity
-open Arena.Ex
+open Arena.Mem.Ex
 
 example : MemWF stUp ∧ HeadFresh stUp ∧ ∀ k, k < 8 → InChunks stUp (96 + k) :=
   ⟨stUp_wf, stUp_fresh, fun k hk => stUp_in _ (by omega) (by omega)⟩
